@@ -413,6 +413,10 @@ def expect(hout, mout, case):
     h = impl_result(hout)
     if m != h:
         return f"`{_short(case.op)}`: implementation: {_short(h)} | model: {_short(m)}"
+    # theorem cleanup_idempotent: the model's second run returns its input; the implementation's must too
+    if case.op.startswith("cleanup ") and hout.startswith("ok ") and hout.split(" || ")[1:2] != ["="]:
+        return (f"`{_short(case.op)}`: a second MeshCleanup::Cleanup with the same options changed the mesh again "
+                f"(the model is idempotent): first {_short(h)} second {_short(hout.split(' || ', 1)[1] if ' || ' in hout else '?')}")
     return None
 
 
